@@ -562,6 +562,30 @@ def _n7(run: Run) -> None:
     run.floor("N7", n, 4, "symbol-making functions called from constructors")
 
 
+ASSUMPTION_KEYS = {"zero", "nonzero", "positive", "negative", "nonnegative", "nonpositive", "real", "complex", "imaginary", "finite", "infinite", "integer", "rational",
+                   "irrational", "even", "odd", "prime", "composite", "hermitian", "antihermitian", "extended_real", "extended_positive", "extended_negative", "algebraic", "transcendental"}
+
+
+def _n8(run: Run) -> None:
+    """N8: the constructors of the symbol classes hand the SymPy base constructor the caller's assumptions and no others. A hard-coded assumption (zero=False on every vector
+    symbol) changes what SymPy does with every expression the symbol occurs in: Eq(a, 0) evaluates to False, so an equation a = 0 can no longer be written"""
+    run.rule("N8", "no symbol constructor passes a hard-coded assumption (zero=, positive=, real=, ...) to the SymPy base constructor: only the caller's **assumptions")
+    n = 0
+    for modname in ("symplyphysics.core.symbols.symbols", "symplyphysics.core.experimental.vectors"):
+        m = run.src.need(modname)
+        for c in [x for x in m.tree.body if isinstance(x, ast.ClassDef)]:
+            for fn in [f for f in c.body if isinstance(f, ast.FunctionDef) and f.name in ("__new__", "__init__")]:
+                for call in [x for x in ast.walk(fn) if isinstance(x, ast.Call) and isinstance(x.func, ast.Attribute) and x.func.attr in ("__new__", "__init__")]:
+                    n += 1
+                    run.ob("N8", f"{modname}:{c.name}.{fn.name}:{norm(call.func, 30)}")
+                    forced = [k for k in call.keywords if k.arg in ASSUMPTION_KEYS and isinstance(k.value, ast.Constant)]
+                    if forced:
+                        run.violate("N8", f"{modname}:{c.name}.{fn.name}:{forced[0].arg}", m, call,
+                                    f"{c.name}.{fn.name} passes the hard-coded assumption {forced[0].arg}={forced[0].value.value!r} to `{norm(call.func, 40)}`: every object of the class carries it "
+                                    f"whatever the caller said, and SymPy acts on it (with zero=False, Eq(a, 0) evaluates to False: the equation a = 0 cannot be written any more)")
+    run.floor("N8", n, 8, "base-constructor calls in the symbol classes")
+
+
 def check(run: Run) -> None:
     w = World(run.src)
     prefixes = _n1(run, w)
@@ -571,3 +595,4 @@ def check(run: Run) -> None:
     _n5(run, w)
     _n6(run, w)
     _n7(run)
+    _n8(run)
